@@ -80,6 +80,7 @@ type Contract struct {
 	Line      int
 	NoFrame   bool
 	Sweep     bool
+	Preserves []*Clause // objects (by pointer parameter) the function must never store into
 }
 
 type BoundedSpec struct {
@@ -191,7 +192,7 @@ func LoadProgram(dir string, patterns []string) (*Program, error) {
 var clauseKeywords = map[string]bool{
 	"func": true, "extern": true, "requires": true, "ensures": true, "modifies": true, "decreases": true,
 	"invariant": true, "loop": true, "at": true, "lemma": true, "bounded": true, "pure": true, "inline": true,
-	"heapclass": true, "step": true, "trusted": true, "noframe": true, "sweep": true, "params": true, "results": true,
+	"heapclass": true, "step": true, "preserves": true, "trusted": true, "noframe": true, "sweep": true, "params": true, "results": true,
 	"import": true,
 }
 
@@ -512,6 +513,14 @@ func (p *Program) readContracts(pk *packages.Package, f *ast.File, filename stri
 					curLoop.Modifies = append(curLoop.Modifies, c)
 				} else {
 					cur.Modifies = append(cur.Modifies, c)
+				}
+			}
+		case "preserves":
+			if cur != nil {
+				for _, part := range splitTop(it.rest, ',') {
+					if c := p.parseClause(filename, it.line, strings.TrimPrefix(strings.TrimSpace(part), "*")); c != nil {
+						cur.Preserves = append(cur.Preserves, c)
+					}
 				}
 			}
 		case "decreases":
